@@ -5,7 +5,7 @@ import time
 import z3
 
 from vlib import env, gen
-from vlib.zrun import twin_verdict, explore_and_prove, wrapper_exc, all_eq, concretize, pyrepr, eq_term
+from vlib.zrun import soft_path, twin_verdict, explore_and_prove, wrapper_exc, all_eq, concretize, pyrepr, eq_term
 from vlib.zsym import Ctx, Int, Real, SymBool, SymNum, sym_int, model_value, lift
 
 META = {
@@ -353,7 +353,7 @@ def task_equilibria(nr, nkeys, hi, presence=None):
                sample={"reactions": nr, "keys": keys, "coefficients": "symbolic 0..%d" % hi, "presence": presence or "all keys in all dicts"})
     for p, m, g in o.failed[:2]:
         cr = [tuple(concretize(m, d) for d in r) for r in rxs]
-        res["violations"].append(dict(key="equilibria:%s" % p.kind, desc="reactions %s -> %r" % (cr, p.value),
+        res["violations"].append(dict(key="equilibria:%s" % p.kind, soft=soft_path(p), desc="reactions %s -> %r" % (cr, p.value),
                                       replay_src=REPLAY_CAT % dict(rxs=pyrepr(cr), keys=keys, mode="equilibria")))
     ot = explore_and_prove(fn, assum, lambda p: False if p.kind == "exc" else (len(p.value[0]) == 0), max_paths=100000, deadline_s=120, max_fail=1)
     res["twin"] = twin_verdict(ot)
